@@ -85,7 +85,16 @@ def nostale(ctx, R):
                 if isinstance(nd.ctx, (ast.Store, ast.Del)) or isinstance(getattr(nd, "_parent", None), ast.AugAssign) and getattr(nd, "_parent").target is nd:
                     R.check(writers(P, f), "C06.NOSTALE", "write .%s in %s" % (nd.attr, q), where(f, nd), "known writer", "`%s` writes Node.%s on the layout path: %s" % (q, nd.attr, "an input of the layout is overwritten, so a second compute() starts from different data" if nd.attr in ("idealPos", "width", "data") else "state that a later compute() or layer can read back"))
                 if isinstance(nd.ctx, ast.Load) and readers is not None:
-                    R.check(readers(P, f), "C06.NOSTALE", "read .%s in %s" % (nd.attr, q), where(f, nd), "read after a write in the same compute()", "`%s` reads Node.%s on the layout path: the value may be left over from an earlier layout (stale position / layer / overlap count), so the result depends on history" % (q, nd.attr))
+                    okr = readers(P, f)
+                    if not okr:
+                        # a helper elsewhere that reads on behalf of allowed readers only (an alternative constructor, an
+                        # accessor): every function that calls it on the layout path is itself an allowed reader
+                        def via_allowed(g_, depth=0):
+                            cs = [P.funcs[c] for c in cg.inn.get(_top(P, g_).qual, ()) if c in P.funcs and c in reach]
+                            return bool(cs) and depth < 3 and all(readers(P, c) or via_allowed(c, depth + 1) for c in cs)
+
+                        okr = via_allowed(f)
+                    R.check(okr, "C06.NOSTALE", "read .%s in %s" % (nd.attr, q), where(f, nd), "read after a write in the same compute()", "`%s` reads Node.%s on the layout path: the value may be left over from an earlier layout (stale position / layer / overlap count), so the result depends on history" % (q, nd.attr))
     R.check(n >= 25, "C06.NOSTALE.inventory", "Node attribute accesses examined: %d" % n, "", "", "too few Node attribute accesses found on the compute call graph", nontrivial=False)
     # overlap counts are recounted in every pass before the punting loop reads them
     f = P.func("distributor.Distributor.algorithm_overlap")
